@@ -25,12 +25,9 @@ def run(chk):
     from . import ctors as _acc
     _acc.accessors(chk, w, only=["vaporetto::sentence::"])
     # tokens, their tags and both writers slice the flat tag vector with n_tags: every function that changes the tags or the tag
-    # count must leave tags.len() == n_tags * len(), and the updates must reset both (shared with C05)
+    # count must leave tags.len() == n_tags * len() (shared with C05; which VALUES the slots hold after an update is C05/C08's subject)
     from . import c05 as _c05
-    chk.rule("R05.1", "every Sentence field is killed on every Ok path of update_* and on every path of the reset (shared with C05)")
-    chk.rule("R05.2", "Err paths of update_* end in the full reset (shared with C05)")
     chk.rule("R05.3", "tags length form == n_tags form * len() at every exit of a function that changes either (shared with C05)")
-    _c05.kill_rules(chk, w, only_fields=("text", "char_types", "boundaries", "str_to_char_pos", "char_to_str_pos", "tags", "n_tags"))
     _c05.r053(chk, w)
     chk.rule("R03.1", "parser specials == writer escape sets (surface and tag), same escape character, separators agree")
     chk.rule("R03.2", "only ASCII constants and the iterated byte (once, in order) are pushed into the String's byte vector")
